@@ -286,8 +286,25 @@ def analyse_generic(repo=None):
         if isinstance(node, (_ast.FunctionDef, _ast.AsyncFunctionDef)) and node.name not in ("__init__", "connect", "close"):
             info = {"first": node.lineno, "last": node.end_lineno, "events": {}, "headers": [], "lock_bodies": []}
             body = node.body[1:] if (node.body and isinstance(node.body[0], _ast.Expr) and isinstance(getattr(node.body[0], "value", None), _ast.Constant)) else node.body
-            for st in _walk_stmts(body):
-                info["headers"].append(list(_header_span(st)))
+            def gwalk(stmts):
+                for st in stmts:
+                    if isinstance(st, (_ast.FunctionDef, _ast.AsyncFunctionDef, _ast.ClassDef)):
+                        continue   # nested definitions are scanned as functions of their own
+                    yield st
+                    for f in ("body", "orelse", "finalbody", "handlers"):
+                        sub = getattr(st, f, None)
+                        if isinstance(sub, list):
+                            for x in sub:
+                                if isinstance(x, _ast.ExceptHandler):
+                                    yield from gwalk(x.body)
+                            if sub and isinstance(sub[0], _ast.stmt):
+                                yield from gwalk(sub)
+            for st in gwalk(body):
+                if isinstance(st, _ast.Try):
+                    span = (st.lineno, st.lineno)
+                else:
+                    span = _header_span(st)
+                info["headers"].append(list(span))
                 info["events"][st.lineno] = "Tau"
                 if isinstance(st, _ast.With):
                     info["lock_bodies"].append([st.lineno, st.body[0].lineno, st.body[-1].end_lineno])
